@@ -26,12 +26,14 @@ from cv import findings as findings_mod
 MAX_PAR = int(os.environ.get("CV_JOBS", "16"))
 
 
-def _run_shards(prop, descs, watchdog_s):
+def _run_shards(prop, descs, watchdog_s, crash_ok=False):
     work = tempfile.mkdtemp(prefix=f"cv-{prop}-", dir=_workdir())
     procs = []  # (idx, Popen, outfile, t0)
+    all_descs = list(descs)
     pending = list(enumerate(descs))
     results = {}
     failures = []
+    crashes = []
     try:
         while pending or procs:
             while pending and len(procs) < MAX_PAR:
@@ -58,6 +60,12 @@ def _run_shards(prop, descs, watchdog_s):
                         p.wait()
                         lf.close()
                         failures.append(f"shard {i} exceeded watchdog {watchdog_s}s")
+                        if os.path.exists(of + ".ckpt"):
+                            try:
+                                with open(of + ".ckpt") as f:
+                                    results[i] = json.load(f)
+                            except Exception:
+                                pass
                     else:
                         still.append((i, p, of, t0, lf))
                     continue
@@ -69,10 +77,35 @@ def _run_shards(prop, descs, watchdog_s):
                     tail = ""
                     try:
                         with open(lf.name) as f:
-                            tail = f.read()[-2000:]
+                            tail = f.read()
+                        tail = tail[:1500] + ("\n...\n" + tail[-500:] if len(tail) > 2000 else "")
                     except Exception:
                         pass
-                    failures.append(f"shard {i} died rc={rc}: {tail}")
+                    jr = None
+                    if os.path.exists(of + ".journal"):
+                        try:
+                            with open(of + ".journal") as f:
+                                jr = json.load(f)
+                        except Exception:
+                            jr = None
+                    if os.path.exists(of + ".ckpt"):
+                        try:
+                            with open(of + ".ckpt") as f:
+                                results[i] = json.load(f)
+                        except Exception:
+                            pass
+                    d = all_descs[i]
+                    if jr is not None and crash_ok:
+                        crashes.append({"shard": i, "rc": rc, "journal": jr, "log": tail, "desc": d})
+                        nxt = jr.get("case")
+                        if isinstance(nxt, int) and "cases" in d and nxt + 1 < d.get("first", 0) + d["cases"] and len(crashes) < 40:
+                            d2 = dict(d)
+                            d2["cases"] = d.get("first", 0) + d["cases"] - (nxt + 1)
+                            d2["first"] = nxt + 1
+                            all_descs.append(d2)
+                            pending.append((len(all_descs) - 1, d2))
+                    else:
+                        failures.append(f"shard {i} died rc={rc}: {tail}")
             procs = still
     finally:
         for i, p, of, t0, lf in procs:
@@ -81,7 +114,7 @@ def _run_shards(prop, descs, watchdog_s):
             except Exception:
                 pass
         shutil.rmtree(work, ignore_errors=True)
-    return results, failures
+    return results, failures, crashes
 
 
 def _workdir():
@@ -109,19 +142,41 @@ def main(argv):
         return _replay(prop, mod, w)
 
     t0 = time.time()
+    import glob
+
+    for old in glob.glob(os.path.join(VERIF_DIR, "replays", f"{prop}-*.json")):
+        try:
+            os.remove(old)
+        except OSError:
+            pass
     descs = mod.plan(tier, seed)
     for i, d in enumerate(descs):
         d.setdefault("tier", tier)
         d.setdefault("seed", seed)
         d.setdefault("shard", i)
     watchdog = getattr(mod, "WATCHDOG_S", {"quick": 900, "thorough": 5400})[tier]
-    results, failures = _run_shards(prop, descs, watchdog)
+    crash_ok = bool(getattr(mod, "CRASH_IS_VIOLATION", False))
+    results, failures, crashes = _run_shards(prop, descs, watchdog, crash_ok)
 
     acc = Acc()
     reached = set()
     for i in sorted(results):
         acc.merge_json(results[i])
         reached.update(results[i].get("reached", []))
+    for c in crashes:
+        # the interpreter was killed by native code while a public operation ran
+        opname = str(c["journal"].get("about_to_run", "?"))
+        first = ""
+        for line in c["log"].splitlines():
+            if line.strip() and not line.startswith(("Fatal", "Current", "  File", "Extension")):
+                first = line.strip()[:160]
+                break
+        acc.violation(
+            f"{prop}/native-crash/{opname}",
+            f"the process was killed (rc={c['rc']}) inside native code while running {opname}: {first}",
+            {"journal": c["journal"], "log": c["log"][:3000], "desc": c["desc"]},
+        )
+        acc.count("native_crashes")
 
     # ---- classify violations ------------------------------------------------
     known = findings_mod.load(prop)
